@@ -304,4 +304,167 @@ theorem aw2_deserMetadata (r : RawRows) (cached : Option ResultMeta) : AW 0 (des
   exact aw_bind0 hA (aw2_metaFor r cached) (fun _ => aw_bind0 hA (aw_tag _ (aw_zero (aw_readIntLength hA)))
     (fun _ => aw_bind0 hA aw_takeRest (fun _ => aw_pure _)))
 
+theorem aw2_readStringList : AW 0 readStringList :=
+  aw_zero (aw_readStringList (A := 2) (B := U16) (by omega))
+
+theorem aw2_readFld (t : FldTy) : AW 0 (readFld t) := by
+  have hA : 1 ≤ 2 := by omega
+  cases t <;> unfold readFld
+  · exact aw_bind0 hA (aw_zero (aw_readInt hA)) (fun _ => aw_pure _)
+  · exact aw_bind0 hA (aw_zero (aw_readConsistency hA)) (fun _ => aw_pure _)
+  · exact aw_bind0 hA (aw_zero (aw_readU8 hA)) (fun _ => aw_pure _)
+  · exact aw_bind0 hA (aw_zero (aw_readU8 hA)) (fun _ => aw_pure _)
+  · exact aw_bind0 hA (aw_zero (aw_readString hA)) (fun _ => aw_pure _)
+  · exact aw_bind0 hA aw2_readStringList (fun _ => aw_pure _)
+  · exact aw_bind0 hA (aw_zero (aw_readShortBytes hA)) (fun _ => aw_pure _)
+
+theorem aw2_readFlds : ∀ ts, AW 0 (readFlds ts)
+  | [] => by unfold readFlds; exact aw_pure _
+  | t :: ts => by
+    unfold readFlds
+    exact aw_bind0 (by omega) (aw2_readFld t) (fun _ => aw_bind0 (by omega) (aw2_readFlds ts) (fun _ => aw_pure _))
+
+theorem aw2_deserError (f : Features) : AW 0 (deserError f) := by
+  have hA : 1 ≤ 2 := by omega
+  unfold deserError
+  exact aw_bind0 hA (aw_tag _ (aw_zero (aw_readInt hA))) (fun code => aw_bind0 hA (aw_tag _ (aw_zero (aw_readString hA)))
+    (fun _ => aw_bind0 hA (aw_tag _ (aw2_readFlds _)) (fun _ => aw_pure _)))
+
+/-- `readShort; allocReq cnt; tag (loopN cnt readString)`: the argument list of a FUNCTION / AGGREGATE change. -/
+theorem aw2_args {k : List Bytes → M β} (t1 t2 : String) (hk : ∀ l, AW 0 (k l)) :
+    AW 0 (tag t1 readShort >>= fun cnt => allocReq cnt >>= fun _ => tag t2 (loopN cnt readString) >>= k) := by
+  have hA : 1 ≤ 2 := by omega
+  refine aw_bindP (w1 := 0) (w2 := 0) (fun n => n ≤ U16) hA (aw_tag _ (aw_zero (aw_readShort hA))) ?_ ?_
+  · intro s a s' h
+    rw [tag_def] at h
+    cases hr : readShort s with
+    | mk o s1 =>
+      rw [hr] at h
+      cases o with
+      | ok n => simp only at h; injection h with h1 h2; injection h1 with h1; subst h1; exact readShort_le s _ _ hr
+      | err e => simp at h
+  · intro n hn s
+    have hl := aw_loopN (A := 2) (B := U16) hA (aw_mono (w' := 1) (aw_readString hA) (by omega) (Nat.le_refl _)
+      (Nat.le_refl _)) n { s with alloc := s.alloc + n }
+    simp only [bind_def, allocReq, tag_def]
+    cases hls : loopN n readString { s with alloc := s.alloc + n } with
+    | mk o s1 =>
+      rw [hls] at hl
+      cases o with
+      | err e => simp only at hl ⊢; unfold U16 at *; omega
+      | ok l =>
+        simp only [Nat.mul_one] at hl ⊢
+        have h2 := hk l s1
+        cases hks : k l s1 with
+        | mk o2 s2 =>
+          rw [hks] at h2
+          cases o2 with
+          | ok b => simp only at h2 ⊢; omega
+          | err e =>
+            simp only at h2 ⊢
+            have := mul_split 2 s.buf.length s1.buf.length hl.2 hA
+            omega
+
+theorem aw2_deserSchemaChange : AW 0 deserSchemaChange := by
+  have hA : 1 ≤ 2 := by omega
+  unfold deserSchemaChange
+  refine aw_bind0 hA (aw_tag _ (aw_zero (aw_readString hA))) (fun ct => aw_bind0 hA
+    (aw_tag _ (aw_zero (aw_readString hA))) (fun target => aw_bind0 hA (aw_tag _ (aw_zero (aw_readString hA)))
+    (fun ks => ?_)))
+  split
+  · exact aw_pure _
+  · split
+    · exact aw_bind0 hA (aw_tag _ (aw_zero (aw_readString hA))) (fun _ => aw_pure _)
+    · split
+      · exact aw_bind0 hA (aw_tag _ (aw_zero (aw_readString hA))) (fun _ => aw_pure _)
+      · split
+        · exact aw_bind0 hA (aw_tag _ (aw_zero (aw_readString hA))) (fun _ => aw2_args _ _ (fun _ => aw_pure _))
+        · split
+          · exact aw_bind0 hA (aw_tag _ (aw_zero (aw_readString hA))) (fun _ => aw2_args _ _ (fun _ => aw_pure _))
+          · exact aw_fail _
+
+theorem aw2_readHostIds : ∀ n, AW 0 (readHostIds n)
+  | 0 => by unfold readHostIds; exact aw_pure _
+  | n + 1 => by
+    have hA : 1 ≤ 2 := by omega
+    unfold readHostIds
+    refine aw_bind0 hA (aw_tag _ (aw_zero (aw_readString hA))) (fun s => ?_)
+    split
+    · exact aw_fail _
+    · exact aw_bind0 hA (aw2_readHostIds n) (fun _ => aw_pure _)
+
+theorem aw2_deserEvent : AW 0 deserEvent := by
+  have hA : 1 ≤ 2 := by omega
+  unfold deserEvent
+  refine aw_bind0 hA (aw_tag _ (aw_zero (aw_readString hA))) (fun ty => ?_)
+  split
+  · refine aw_bind0 hA (aw_tag _ (aw_zero (aw_readString hA))) (fun c => aw_bind0 hA
+      (aw_tag _ (aw_zero (aw_readInet hA))) (fun a => ?_))
+    split
+    · exact aw_pure _
+    · exact aw_fail _
+  · split
+    · refine aw_bind0 hA (aw_tag _ (aw_zero (aw_readString hA))) (fun c => aw_bind0 hA
+        (aw_tag _ (aw_zero (aw_readInet hA))) (fun a => ?_))
+      split
+      · exact aw_pure _
+      · exact aw_fail _
+    · split
+      · exact aw_bind0 hA aw2_deserSchemaChange (fun _ => aw_pure _)
+      · split
+        · refine aw_bind0 hA (aw_tag _ (aw_zero (aw_readString hA))) (fun c => ?_)
+          split
+          · refine aw_bind0 hA (aw_tag _ aw2_readStringList) (fun conns => aw_bind0 hA
+              (aw_tag _ (aw_zero (aw_readShort hA))) (fun n => ?_))
+            split
+            · exact aw_fail _
+            · exact aw_bind0 hA (aw2_readHostIds n) (fun _ => aw_pure _)
+          · exact aw_fail _
+        · exact aw_fail _
+
+theorem aw2_deserResult (f : Features) : AW 0 (deserResult f) := by
+  have hA : 1 ≤ 2 := by omega
+  unfold deserResult
+  refine aw_bind0 hA (aw_tag _ (aw_zero (aw_readInt hA))) (fun kind => ?_)
+  split
+  · exact aw_pure _
+  · split
+    · exact aw_bind0 hA (aw2_deserRawRows f) (fun _ => aw_pure _)
+    · split
+      · exact aw_bind0 hA (aw_tag _ (aw_zero (aw_readString hA))) (fun _ => aw_pure _)
+      · split
+        · exact aw_bind0 hA (aw2_deserPrepared f) (fun _ => aw_pure _)
+        · split
+          · exact aw_bind0 hA aw2_deserSchemaChange (fun _ => aw_pure _)
+          · exact aw_fail _
+
+theorem aw2_deserResponse (f : Features) (op : Nat) : AW 0 (deserResponse f op) := by
+  have hA : 1 ≤ 2 := by omega
+  unfold deserResponse
+  split
+  · exact aw_bind0 hA (aw2_deserError f) (fun _ => aw_pure _)
+  · split
+    · exact aw_pure _
+    · split
+      · exact aw_bind0 hA (aw_tag _ (aw_zero (aw_readString hA))) (fun _ => aw_pure _)
+      · split
+        · exact aw_bind0 hA (aw_tag _ (aw_zero (aw_readStringMultimap (A := 2) (B := 0) hA |> fun h => by
+            simpa using h))) (fun _ => aw_pure _)
+        · split
+          · exact aw_bind0 hA (aw2_deserResult f) (fun _ => aw_pure _)
+          · split
+            · exact aw_bind0 hA aw2_deserEvent (fun _ => aw_pure _)
+            · split
+              · exact aw_bind0 hA (aw_tag _ (aw_zero (aw_readBytesOpt hA))) (fun _ => aw_pure _)
+              · split
+                · exact aw_bind0 hA (aw_tag _ (aw_zero (aw_readBytesOpt hA))) (fun _ => aw_pure _)
+                · exact aw_fail _
+
+theorem aw2_parseExt (flags : Nat) : AW 0 (parseExt flags) := by
+  have hA : 1 ≤ 2 := by omega
+  unfold parseExt
+  exact aw_bind0 hA (aw_optRead hA _ (aw_tag _ (aw_readUuid hA))) (fun _ => aw_bind0 hA
+    (aw_condRead _ _ (aw_tag _ aw2_readStringList)) (fun _ => aw_bind0 hA
+    (aw_optRead hA _ (aw_tag _ (aw_zero (aw_readBytesMap (A := 2) (B := U16) hA)))) (fun _ => aw_pure _)))
+
 end ScyllaVerif.C08
